@@ -157,7 +157,7 @@ pub fn strategy() -> impl Strategy<Value = Case> {
                     }
                 }
             }
-            let map_names = ["base", "m1", "m2", "m 3"];
+            let map_names = ["base", "m1", "m1.v2", "m 3"];
             let mut argmap_files: Vec<(String, String, BTreeMap<String, Vec<String>>)> = vec![];
             for (ti, (present, lacks, lists)) in rmaps.iter().enumerate().take(n) {
                 let t = config.targets[ti].path.clone();
@@ -179,7 +179,7 @@ pub fn strategy() -> impl Strategy<Value = Case> {
                     argmap_files.push((t.clone(), name.to_string(), content));
                 }
             }
-            let cli_argmaps: Vec<String> = rcli_maps.iter().map(|&k| ["m1", "m2", "m 3", "nofile"][k as usize].to_string()).collect();
+            let cli_argmaps: Vec<String> = rcli_maps.iter().map(|&k| ["m1", "m1.v2", "m 3", "nofile"][k as usize].to_string()).collect();
             let mut deps = false;
             let (cli_args, cli_targets) = if want_args && ncmd == 1 {
                 (cli_args_raw, vec![config.targets[pick(tsel, n)].path.clone()])
